@@ -28,6 +28,7 @@ func (g G) Bool(label string) bool { return rapid.Bool().Draw(g.T, label) }
 func (g G) Chance(num, den int, label string) bool {
 	return rapid.IntRange(0, den-1).Draw(g.T, label) < num
 }
+
 // Rare returns true with probability close to num/den. rapid's integer
 // generators are deliberately biased towards small values, which makes
 // Chance() fire far more often than num/den for small num; Rare mixes the
